@@ -44,10 +44,10 @@ type VerifKV struct{ K, V []byte }
 // VerifRespHeaderState is a read-only dump of the fields ResponseHeader.AppendBytes reads.
 type VerifRespHeaderState struct {
 	ContentType, ContentEncoding, Server, ContentLengthBytes []byte
-	ContentLength                                             int
-	NoDefaultDate, NoDefaultContentType, ConnectionClose      bool
-	H, Cookies                                                []VerifKV
-	Trailer                                                   [][]byte
+	ContentLength                                            int
+	NoDefaultDate, NoDefaultContentType, ConnectionClose     bool
+	H, Cookies                                               []VerifKV
+	Trailer                                                  [][]byte
 }
 
 func verifKVs(a []argsKV) []VerifKV {
@@ -74,9 +74,9 @@ func VerifRespHeaderDump(h *ResponseHeader) VerifRespHeaderState {
 // VerifReqHeaderState is a read-only dump of the fields RequestHeader.AppendBytes reads.
 type VerifReqHeaderState struct {
 	Method, RequestURI, UserAgent, Host, ContentType, ContentLengthBytes []byte
-	NoDefaultContentType, ConnectionClose                                 bool
-	H, Cookies                                                            []VerifKV
-	Trailer                                                               [][]byte
+	NoDefaultContentType, ConnectionClose                                bool
+	H, Cookies                                                           []VerifKV
+	Trailer                                                              [][]byte
 }
 
 func VerifReqHeaderDump(h *RequestHeader) VerifReqHeaderState {
